@@ -3,10 +3,13 @@ package checks
 import (
 	"bytes"
 	"encoding/json"
+	"errors"
 	"fmt"
 	"strings"
+	"time"
 
 	"github.com/cuteLittleDevil/go-jt808/attachment"
+	"github.com/cuteLittleDevil/go-jt808/service"
 	"github.com/cuteLittleDevil/go-jt808/shared/consts"
 	"verif/harness/ref"
 	"verif/harness/vc"
@@ -54,8 +57,20 @@ func (r *hostRun) set(which string, p *vnet.Peer) {
 //go:norace
 func (r *hostRun) sent(b []byte) { r.vSent = append(r.vSent, b) }
 
-type peerDone struct {
-	r *hostRun
+// victimJoined: the victim's connection has been announced as joined (or refused).
+type victimJoined struct{ r *hostRun }
+
+//go:norace
+func (v victimJoined) Ready() bool {
+	if v.r.victim == nil {
+		return false
+	}
+	for _, e := range v.r.w.ev {
+		if e.Kind == "join" && e.Conn == v.r.victim.C.Index {
+			return true
+		}
+	}
+	return false
 }
 
 func hostMake(scn hostScn) func() (func(), any) {
@@ -105,6 +120,19 @@ func hostMake(scn hostScn) func() (func(), any) {
 					end()
 				}
 			})
+			// the platform can still reach the victim after H is done (V does not answer commands: a timeout is fine)
+			cr := r.w.newCall("caller", ref.PhoneString(ref.BCD(victimPhone, 6)), 0x8104)
+			vs.GoNamed("caller", false, func() {
+				hDone.Recv()
+				vs.Block(&vs.Op{Kind: "hwait-victim", W: victimJoined{r}})
+				cr.begin()
+				m := r.w.srv.SendActiveMessage(service.NewActiveMessage(cr.Key, consts.P8104QueryTerminalParams, nil, 50*time.Millisecond))
+				var sn snap
+				if m != nil {
+					sn = takeSnap(m)
+				}
+				cr.end(m, sn)
+			})
 			// T: a new connection opened after H is done must be accepted and served
 			vs.GoNamed("third", false, func() {
 				hDone.Recv()
@@ -130,11 +158,44 @@ func hostCheck(res *vs.Result, user any) []vs.Violation {
 		add("harness", "victim/third connection not established")
 		return out
 	}
+	// was the victim itself accepted? (with SameKey the hostile client may have taken the key first)
+	victimOwns := false
+	for _, e := range r.w.ev {
+		if e.Kind == "join" && e.Conn == r.victim.C.Index && e.Err == nil {
+			victimOwns = true
+		}
+	}
+	if victimOwns && !r.victim.C.Closed() {
+		for _, c := range r.w.calls {
+			if !c.Done || c.Reply == nil {
+				add("victim-command-stranded", "a platform command for the well-behaved terminal never returned")
+				continue
+			}
+			if errors.Is(c.Reply.ExtensionFields.Err, service.ErrNotExistKey) {
+				add("victim-session-lost", fmt.Sprintf("after the hostile client was done, a platform command for the well-behaved (still connected) terminal %s returned %v", c.Key, c.Reply.ExtensionFields.Err))
+				continue
+			}
+			onVictim := false
+			for _, o := range r.victim.C.Out {
+				if f, err := ref.Decode(o.Data); err == nil && f.ID == 0x8104 {
+					onVictim = true
+				}
+			}
+			if !onVictim {
+				add("victim-command-misrouted", "the platform command for the well-behaved terminal did not arrive on its socket")
+			}
+		}
+	}
 	if r.scn.SameKey {
 		// H races V for the same key: whoever joins first owns it; the other is refused. Only crash containment
 		// and the third client are checked (the registry itself is C11's subject).
 	} else {
-		got := framesOf(r.victim.C.Out)
+		var got [][]byte
+		for _, g := range framesOf(r.victim.C.Out) {
+			if f, err := ref.Decode(g); err != nil || f.ID != 0x8104 {
+				got = append(got, g)
+			}
+		}
 		if r.victim.C.Closed() {
 			add("victim-closed", "the well-behaved connection was closed by the server")
 		}
@@ -145,7 +206,7 @@ func hostCheck(res *vs.Result, user any) []vs.Violation {
 				q, _ := ref.Decode(r.vSent[i])
 				f, err := ref.Decode(g)
 				w := ref.ExpectedReply(q)
-				if err != nil || f.ID != w.ID || !bytes.Equal(f.PhoneBCD, q.PhoneBCD) || f.Serial != uint16(i) || (!w.BodyFree && !w.BodyPrefix && !bytes.Equal(f.Body, w.Body)) {
+				if err != nil || f.ID != w.ID || !bytes.Equal(f.PhoneBCD, q.PhoneBCD) || (!w.BodyFree && !w.BodyPrefix && !bytes.Equal(f.Body, w.Body)) {
 					add("victim-reply-wrong", fmt.Sprintf("reply %d to the well-behaved client is %s, want type %04x body %s", i, hx(g), w.ID, hx(w.Body)))
 				}
 			}
@@ -201,6 +262,18 @@ func hostPieces(phone string) map[string]string {
 				g[0] = 0xFF
 				fr(fmt.Sprintf("%04x/%s/first-ff", id, v), th(id, v19, k), g)
 				fr(fmt.Sprintf("%04x/%s/extended", id, v), th(id, v19, k), append(append([]byte(nil), sb...), 0x31, 0x00))
+				// count / length fields pushed to values where 16-bit arithmetic wraps while the low bits stay
+				// consistent with the data present (count 0x4000+k with k entries, length 0x80+n with n bytes)
+				for off := 0; off < len(sb) && off < 8; off++ {
+					for _, hi := range []byte{0x40, 0x80} {
+						if sb[off]&hi != 0 {
+							continue
+						}
+						g := append([]byte(nil), sb...)
+						g[off] |= hi
+						fr(fmt.Sprintf("%04x/%s/byte%d|%02x", id, v, off, hi), th(id, v19, k), g)
+					}
+				}
 			}
 		}
 	}
@@ -304,7 +377,7 @@ func attSession(d consts.ActiveSafetyType, name string, data []byte, chunk int) 
 func init() {
 	vc.Register(&vc.Check{
 		ID: "C10", Level: "model_checking", SingleProc: true,
-		Rule: "JT808 server: a well-behaved session V (register, auth, heartbeat, location, each awaited), a hostile client H and a third client opened after H, on the real server with README-pattern handlers that Parse and render every body. H plays every single piece of a ~230-piece menu (valid frames with lying package fields, every supported terminal and platform ID x both versions with empty / 1-byte / truncated / corrupted / extended bodies, the boundary bodies C03 found, half frames, bare delimiters, 2 KiB without delimiter, unknown IDs) with close or reset before, between and after its chunks, under ALL schedules with <=1 deviation (thorough 2), every ordered pair from a 40-piece sub-menu under the run-to-block schedule (thorough: with 1 deviation), " +
+		Rule: "JT808 server: a well-behaved session V (register, auth, heartbeat, location, each awaited), a hostile client H and a third client opened after H, on the real server with README-pattern handlers that Parse and render every body. H plays every single piece of a ~900-piece menu (valid frames with lying package fields, every supported terminal and platform ID x both versions with empty / 1-byte / truncated / corrupted / extended bodies, the boundary bodies C03 found, half frames, bare delimiters, 2 KiB without delimiter, unknown IDs) with close or reset before, between and after its chunks, under ALL schedules with <=1 deviation (thorough 2), every ordered pair from a 40-piece sub-menu under the run-to-block schedule (thorough: with 1 deviation), " +
 			"plus H presenting V's key. Attachment server: connection.run on scripted connections: every prefix (EOF and reset at every chunk boundary, including connect-and-close) of well-formed sessions of all five dialects, control frames and chunk headers with adversarial names / offsets / lengths, default and custom file handler. Oracle: no panic anywhere, V receives exactly its reference replies, the later client is served. Non-trivial = H sends at least one chunk",
 		Assumptions: []string{"memory exhaustion by an endless delimiter-free stream is a resource bound, not a reachable-state property, and is not claimed"},
 		Run:         c10Run,
